@@ -110,6 +110,22 @@ pub fn inner(args: &[String]) -> i32 {
                 }
             }
         }
+        "uring" => {
+            // the io_uring submission / completion seam: every single deviation and every pair,
+            // with the kernel-ownership ledger (and the sanitizer) as oracle
+            if chunk == 0 && start == 0 {
+                say("START 0 uring:submission-seam".to_string());
+                let mut rep = Report::new("C20", "inner", "fault_enumeration");
+                super::c09::check_uring(budget, true, &mut rep);
+                say(format!("DONE 0 {} {}", rep.get("evaluations"), rep.get("distinct_nontrivial")));
+                for v in rep.violations.iter().take(3) {
+                    say(format!("VIOL C20 uring {} // {}", v.signature, v.detail.lines().last().unwrap_or("")));
+                }
+                for m in rep.machinery.iter().take(2) {
+                    say(format!("MACH uring {m}"));
+                }
+            }
+        }
         "alloc" => {
             // the crate's public aligned buffer: every request size around the block
             // boundaries, every length the buffer itself admits, written and read in full
@@ -199,7 +215,7 @@ pub fn check(tier: &str, budget_s: f64, report: &mut Report) {
     }
     let threads = crate::util::worker_threads();
     let bound = if thorough { 2 } else { 1 };
-    let mut fams: Vec<(&str, f64)> = vec![("c07mem", 0.12), ("c07disk", 0.12), ("c08", 0.22), ("scan", 0.14), ("contend", 0.06), ("sweep", 0.08), ("wb", 0.06), ("seq", 0.1), ("fault", 0.04), ("alloc", 0.01), ("free", 0.05)];
+    let mut fams: Vec<(&str, f64)> = vec![("c07mem", 0.12), ("c07disk", 0.12), ("c08", 0.22), ("scan", 0.14), ("contend", 0.06), ("sweep", 0.08), ("wb", 0.06), ("seq", 0.1), ("fault", 0.04), ("uring", 0.06), ("alloc", 0.01), ("free", 0.05)];
     if !thorough {
         fams.retain(|f| f.0 != "wb");
     }
@@ -207,7 +223,7 @@ pub fn check(tier: &str, budget_s: f64, report: &mut Report) {
     let stop = AtomicBool::new(false);
     for (fam, share) in fams {
         let budget = budget_s * share;
-        let nchunks = if fam == "fault" || fam == "alloc" { 1 } else { threads };
+        let nchunks = if fam == "fault" || fam == "alloc" || fam == "uring" { 1 } else { threads };
         let totals: Mutex<(u64, u64, u64, u64)> = Mutex::new((0, 0, 0, 0)); // programs done, executions, distinct, crashes
         let viols: Mutex<Vec<(String, String)>> = Mutex::new(Vec::new());
         std::thread::scope(|sc| {
@@ -245,6 +261,8 @@ pub fn check(tier: &str, budget_s: f64, report: &mut Report) {
                                 t.1 += nums.get(1).copied().unwrap_or(0);
                                 t.2 += nums.get(2).copied().unwrap_or(0);
                                 last_start = None;
+                            } else if let Some(rest) = line.strip_prefix("MACH ") {
+                                viols.lock().unwrap().push((format!("{fam}|machinery"), format!("MACHINERY {rest}")));
                             } else if let Some(rest) = line.strip_prefix("VIOL C20 ") {
                                 viols.lock().unwrap().push((rest.chars().take(160).collect(), format!("C20: {rest}")));
                             }
@@ -298,5 +316,5 @@ pub fn check(tier: &str, budget_s: f64, report: &mut Report) {
     report.set("deviation_bound", bound);
     report.sample(json!({"family": "c08", "what": "every schedule (bound above) of reader|writer;flush;reuse;flush programs executed with feoxdb and the harness compiled with -Zsanitizer=address"}));
     report.set("explanation", "the sequence, schedule and fault enumerations re-executed under AddressSanitizer in child processes; the 'free' family runs the same thread bodies without the controller (a sampling supplement, not counted as enumeration)");
-    report.assumptions.push("kernel-side lifetime of io_uring buffers is invisible to user-space tools; O_DIRECT paths are unreachable in this sandbox".into());
+    report.assumptions.push("what the kernel really does with an io_uring buffer is invisible to user-space tools: the 'uring' family decides buffer lifetimes against a ledger (kernel-owned from submission until the code reaps the completion) fed by hooks and by the process's allocator; O_DIRECT paths are unreachable in this sandbox".into());
 }
